@@ -184,7 +184,7 @@ def stage_structural_sweep(ctx: Ctx):
                         ctx.tick(('sweep', csrc, str(path), repr(val)), 'sweep:prim')
                         d = reparse_diffs(root)
                         if d:
-                            ctx.violation(f'pos|prim-put|{d[0].split(":")[0][-30:]}', 'after putting a primitive to Constant.value the source parsed from scratch differs from the live tree',
+                            ctx.violation(f'pos|prim-put|{type(val).__name__}|{d[0].split(": ")[-1][:40]}', 'after putting a primitive to Constant.value the source parsed from scratch differs from the live tree',
                                           {**rec, 'result_src': root.src, 'diffs': d})
         for f in probe.walk(True):
             a = f.a
